@@ -5,7 +5,8 @@ From Coq Require Import ZArith List Bool Lia.
 From Low Require Import Lib.Bits Lib.BitSeq Lib.Lex Lib.Bytes Model.Sigbits Spec.SigbitsSpec Spec.ShardRouteSpec
   Spec.ShardSplitSpec Spec.ShardTotalSpec
   Proofs.SigbitsShardChecker Proofs.SigbitsLcpAll Proofs.SigbitsShard Proofs.SigbitsShardRoute
-  Proofs.SigbitsShardDomain Model.Sharding32 Proofs.Sharding32Proofs Proofs.SigbitsShardTotal.
+  Proofs.SigbitsShardDomain Model.Sharding32 Proofs.Sharding32Proofs Proofs.SigbitsShardTotal
+  Run.C17 Proofs.C17RunProofs.
 Import ListNotations.
 Open Scope Z_scope.
 
@@ -251,3 +252,12 @@ Proof.
   split; [vm_compute; reflexivity|]. split; [vm_compute; reflexivity|].
   intros H. specialize (H ([98], [97]) (or_introl eq_refl)). discriminate H.
 Qed.
+
+(** What the correspondence run evaluates as "the model's output": for key sets with a key longer
+    than 9000 bytes [Run.C17.c17_run] evaluates [spec_ShardByPrefix] (the faithful model is
+    quadratic in the length of a shared prefix); by [C17_exact] that is the model's output on the
+    whole domain of the ops. *)
+Theorem C17_run_is_model : forall keys maxSize, Run.C17.c17_dom keys maxSize = true ->
+  Run.C17.c17_run keys maxSize = ShardByPrefix keys maxSize.
+Proof. exact c17_run_is_model. Qed.
+Print Assumptions C17_run_is_model.
